@@ -29,7 +29,11 @@ from opsim.core import derive, HarnessError
 from opsim.sched import SeqTracer, Sched
 from opsim.util import call, plain, weighted, quiet
 
-from operon_ai.topology.cascade import Cascade, CascadeStage, MAPKCascade
+import operon_ai.topology.cascade as cascade_mod
+from operon_ai.core.agent import BioAgent
+from operon_ai.core.types import Signal
+from operon_ai.state.metabolism import ATP_Store
+from operon_ai.topology.cascade import AgentCascade, Cascade, CascadeMode, CascadeStage, MAPKCascade
 
 ID = "C19"
 LEVEL = "fault_enumeration"
@@ -56,7 +60,9 @@ RULE = ("run i < table size is the i-th pipeline of the complete table {checkpoi
         "test 'signal is not None'; processors / recovery handlers returning None, 0, '', []; stage names '' and "
         "duplicates; max_amplification 100/3/1; recording, raising or record-editing on_stage_complete / "
         "on_cascade_complete observers; one checkpoint callable shared by several stages (stateful or content-based) "
-        "with list signals that processors extend in place or hand on untouched), "
+        "with list signals that processors extend in place or hand on untouched; max_amplification also 0.5/0.25 with a "
+        "unity-gain stage first; every CascadeMode through run()), (a') AgentCascade pipelines of 1-3 real BioAgent stages "
+        "behind identity/truthiness/type-sensitive gates on None, '', 0, text, Signal, dict and list inputs, "
         "(b) the MAPKCascade preset (stock, first tier removed, extra fake stage appended) on inputs that pass, fail or "
         "crash its gates, (c) threads: 2 tasks x 1-2 run() calls on one shared Cascade of 1-3 stages whose checkpoints "
         "give a per-call verdict, under seeded schedules (serial, uniform, sticky, pct) with a decision at every source "
@@ -81,6 +87,14 @@ ASSUMPTIONS = [
     "callbacks and signals are judged on snapshots taken when a fake was called / returned (signals may be mutated in "
     "place, an observer may edit the record it is handed); composition is judged against what the stage functions "
     "produced and what was submitted, never against the report's records",
+    "the Cascade constructor's mode is varied over every CascadeMode and always driven through run(): the statement has "
+    "no mode exemption (unchanged run() ignores the mode)",
+    "AgentCascade.add_agent_stage(checkpoint=...) is 'a pipeline stage that has a checkpoint': the caller's checkpoint must "
+    "be asked about the very signal the stage processes; composition is not judged there (outputs are the library's "
+    "mock-LLM payloads)",
+    "a stage completed through its error handler may also stay out of the gain bookkeeping altogether (unchanged code: "
+    "no multiply, no clamp for it), so with max_amplification < 1 a run whose only completed stages were recovered may "
+    "report 1.0",
     "threads family: every clause is per run() call (run() keeps all per-run state in locals; the statistics counters "
     "on the object are not judged); pre-emption granularity is the source line",
 ]
@@ -90,7 +104,9 @@ EXPECT_PROBES = ("gate_raise_nonhalt", "gate_reject_nonhalt", "gate_falsy", "hal
                  "duplicate_stage_names", "none_output_handed_on", "falsy_output_handed_on", "success_with_none_final_output",
                  "notnone_gate_blocked", "observer_raised", "threads_run", "threads_opposite_verdicts_same_stage",
                  "threads_preempted_inside_run", "shared_gate_rejected", "stage_handed_on_the_same_object",
-                 "observer_edited_its_record", "attenuation_after_clamp")
+                 "observer_edited_its_record", "attenuation_after_clamp", "mode_PARALLEL", "mode_CONDITIONAL",
+                 "mode_AMPLIFYING", "unity_stage_first_under_a_limiter", "agents_run", "agent_gate_blocked_falsy_input",
+                 "agent_expressed", "agent_input_is_a_Signal")
 
 MAPK_INPUTS = {
     "str": "hello", "none": None, "int": 7,
@@ -207,6 +223,20 @@ def _shared_objects(rng, cfg, ops):
             st["gate"] = "shared"
 
 
+MODES = [m.name for m in CascadeMode]
+AGENT_INPUTS = ("none", "estr", "zero", "text", "signal", "dict_off", "elist")
+AGENT_GATES = ("absent", "pass", "reject", "raise", "notnone", "truthy", "isstr")
+
+
+def _agents_plan(rng, halt, max_amp, mode):
+    """AgentCascade: the library's own way of putting agents behind gates."""
+    n = rng.choice([1, 2, 2, 3])
+    ops = [{"gate": weighted(rng, [(1, "absent"), (2, "pass"), (1, "reject"), (1, "raise"), (3, "notnone"), (3, "truthy"),
+                                   (2, "isstr")]), "amp": rng.choice(AMPS)} for _ in range(n)]
+    return {"config": {"halt": halt, "max_amp": max_amp, "family": "agents", "mode": mode,
+                       "input": rng.choice(AGENT_INPUTS)}, "ops": ops}
+
+
 def _threads_plan(rng, halt, max_amp):
     n = rng.choice([1, 1, 2, 2, 3])
     ops = []
@@ -243,12 +273,15 @@ def gen(rng, tier, i):
     if case is not None:
         return case
     halt = rng.random() < 0.5
-    max_amp = weighted(rng, [(5, 100.0), (2, 3.0), (1, 1.0)])
+    max_amp = weighted(rng, [(5, 100.0), (2, 3.0), (1, 1.0), (1.2, 0.5), (0.8, 0.25)])
     fam = rng.random()
     if fam < 0.07:
         return _threads_plan(rng, halt, max_amp)
+    mode = rng.choice(MODES) if rng.random() < 0.45 else "SEQUENTIAL"     # every CascadeMode, through run()
+    if fam < 0.11:
+        return _agents_plan(rng, halt, max_amp, mode)
     if fam < 0.24:
-        cfg = {"halt": halt, "max_amp": max_amp, "family": "mapk",
+        cfg = {"halt": halt, "max_amp": max_amp, "family": "mapk", "mode": mode,
                "tiers": rng.choice([[10.0, 10.0, 10.0], [2.0, 2.0, 2.0], [0.5, 1000.0, 1.0], [1.0, 1.0, 1.0]]),
                "drop_first": rng.random() < 0.6}
         names = sorted(MAPK_INPUTS)
@@ -273,7 +306,10 @@ def gen(rng, tier, i):
                 st["gate"] = "falsy"
             ops.append(st)
     _decorate(rng, ops)
-    cfg = {"halt": halt, "max_amp": max_amp, "family": "sampled"}
+    cfg = {"halt": halt, "max_amp": max_amp, "family": "sampled", "mode": mode}
+    if max_amp < 1.0 and rng.random() < 0.6:
+        ops[0]["amp"] = 1.0                      # a unity-gain stage first, under a limiter (max < 1)
+        ops[0].update({"gate": rng.choice(["absent", "pass"]), "proc": "ok"})
     if rng.random() < 0.2:
         _shared_objects(rng, cfg, ops)
     r = rng.random()
@@ -292,6 +328,8 @@ def simplify(plan):
     cfg = plan["config"]
     if cfg["max_amp"] != 100.0:
         yield {**plan, "config": {**cfg, "max_amp": 100.0}}
+    if cfg.get("mode", "SEQUENTIAL") != "SEQUENTIAL":
+        yield {**plan, "config": {**cfg, "mode": "SEQUENTIAL"}}
     if cfg.get("observer"):
         yield {**plan, "config": {k_: v for k_, v in cfg.items() if k_ not in ("observer", "observer_at")}}
     if cfg.get("family") == "mapk":
@@ -305,6 +343,8 @@ def simplify(plan):
                 yield {**plan, "ops": ops}
         for key, small in (("amp", 1.0), ("handler", "absent"), ("required", True), ("proc", "ok"), ("gate", "absent"),
                            ("gate", "pass")):
+            if key not in st:           # agent stages carry only gate and amp
+                continue
             if st[key] != small and not (key == "gate" and small == "pass" and st[key] == "absent"):
                 ops = [dict(o) for o in plan["ops"]]
                 ops[j][key] = small
@@ -526,7 +566,7 @@ def _build(k, plan):
     if cfg.get("family") == "mapk":
         c = MAPKCascade(name="mapk", tier1_amplification=cfg["tiers"][0], tier2_amplification=cfg["tiers"][1],
                         tier3_amplification=cfg["tiers"][2], max_amplification=cfg["max_amp"],
-                        halt_on_failure=w.halt, silent=quiet(), **kw)
+                        halt_on_failure=w.halt, silent=quiet(), mode=CascadeMode[cfg.get("mode", "SEQUENTIAL")], **kw)
         tiers = list(zip(PRESET, cfg["tiers"]))
         if cfg["drop_first"]:
             if c.remove_stage("MAPKKK") is not True:
@@ -536,7 +576,10 @@ def _build(k, plan):
         for (name, g, fn), amp in tiers:
             w.desc.append({"name": name, "fake": None, "st": None, "gate": g, "fn": fn, "required": True, "amp": amp})
     else:
-        c = Cascade("sim", max_amplification=cfg["max_amp"], halt_on_failure=w.halt, silent=quiet(), **kw)
+        c = Cascade("sim", max_amplification=cfg["max_amp"], halt_on_failure=w.halt, silent=quiet(),
+                    mode=CascadeMode[cfg.get("mode", "SEQUENTIAL")], **kw)
+        if cfg.get("mode", "SEQUENTIAL") != "SEQUENTIAL":
+            k.probe("mode_" + cfg["mode"])
     base = len(w.desc)
     for j, st in enumerate(plan["ops"]):
         idx = base + j
@@ -780,12 +823,16 @@ def _judge(w, tag, signal0, out):
             if fate[i] == "completed":
                 choices.append((d["amp"],))
             elif fate[i] == "recovered":
-                choices.append((1.0, d["amp"]) if d["amp"] != 1.0 else (1.0,))
+                # ... or may stay out of the gain bookkeeping altogether (no multiply, no clamp step): unchanged code
+                # does that, which with max_amplification < 1 leaves the initial 1.0 standing (see notes, round 5)
+                choices.append((None, 1.0, d["amp"]) if d["amp"] != 1.0 else (None, 1.0))
         accepted = set()
         for combo in itertools.product(*choices):
             step, prod = 1.0, 1.0
             clamped = False
             for a in combo:
+                if a is None:
+                    continue
                 if clamped and a < 1.0:
                     k.probe("attenuation_after_clamp")
                 step *= a
@@ -796,6 +843,8 @@ def _judge(w, tag, signal0, out):
             accepted.add(min(prod, mx))
             if clamped or prod > mx:
                 k.probe("clamped")
+        if mx < 1.0 and choices and choices[0] == (1.0,):
+            k.probe("unity_stage_first_under_a_limiter")
         got = res.total_amplification
         if not any(math.isclose(got, a, rel_tol=1e-9, abs_tol=1e-12) for a in accepted):
             k.violation("amplification", "not_clamped_product_of_completed_stages", hs,
@@ -827,6 +876,8 @@ def run(plan, k):
     cfg = plan["config"]
     if cfg.get("family") == "threads":
         return _run_threads(plan, k)
+    if cfg.get("family") == "agents":
+        return _run_agents(plan, k)
     k.key = [cfg, plan["ops"]]
     w, c = _build(k, plan)
     if w is None or not w.desc:
@@ -846,6 +897,150 @@ def run(plan, k):
         k.violation("returns", out.kind, w.hs)
         return
     _judge(w, ("main", 0), submitted, out)
+
+
+def _agent_input(name):
+    return {"none": None, "estr": "", "zero": 0, "text": "hello", "signal": Signal(content="hello"),
+            "dict_off": {"ok": False}, "elist": []}[name]
+
+
+def _run_agents(plan, k):
+    """AgentCascade.add_agent_stage(checkpoint=...): a pipeline stage with a checkpoint like any other.  The agents are
+    real BioAgents (a recording subclass, substituted for the name the cascade module instantiates); the gates are fakes
+    that keep the very object they were asked about."""
+    cfg = plan["config"]
+    halt, hs = bool(cfg["halt"]), f"halt={bool(cfg['halt'])}"
+    k.key = [cfg, plan["ops"]]
+    k.probe("agents_run")
+    log = []            # (stage, role, object, outcome)
+
+    class SpyAgent(BioAgent):
+        def express(self, signal):
+            idx = int(self.name[1:])                     # agents are named a0, a1, ...
+            log.append((idx, "express", signal, None))
+            k.ev("express", [idx, plain(getattr(signal, "content", None))])
+            k.probe("agent_expressed")
+            return super().express(signal)
+
+    def make_gate(idx, beh):
+        def gate(signal):
+            b = beh
+            if b == "notnone":
+                b = "pass" if signal is not None else "reject"
+            elif b == "truthy":
+                b = "pass" if signal else "reject"
+            elif b == "isstr":
+                b = "pass" if isinstance(signal, (str, Signal)) else "reject"
+            log.append((idx, "gate", signal, b))
+            k.ev("gate", [idx, type(signal).__name__, plain(signal) if not isinstance(signal, Signal) else signal.content, b])
+            if b == "raise":
+                k.fault("collab_raise")
+                raise GateBoom(f"gate{idx}")
+            if b == "reject":
+                k.fault("collab_adversarial_value")
+                if not isinstance(signal, Signal) and not signal:
+                    k.probe("agent_gate_blocked_falsy_input")
+            return b == "pass"
+        return gate
+
+    c = AgentCascade("agents", budget=ATP_Store(budget=1000, silent=quiet()), max_amplification=cfg["max_amp"],
+                     halt_on_failure=halt, silent=quiet(), mode=CascadeMode[cfg.get("mode", "SEQUENTIAL")])
+    real = cascade_mod.BioAgent
+    cascade_mod.BioAgent = SpyAgent
+    try:
+        for j, st in enumerate(plan["ops"]):
+            c.add_agent_stage(f"a{j}", role="Processor", amplification=st["amp"],
+                              checkpoint=None if st["gate"] == "absent" else make_gate(j, st["gate"]))
+    finally:
+        cascade_mod.BioAgent = real
+    n = len(plan["ops"])
+    if n == 0:
+        return
+    signal0 = _agent_input(cfg["input"])
+    if isinstance(signal0, Signal):
+        k.probe("agent_input_is_a_Signal")
+    with SeqTracer(k, SCOPE, 20_000) as tr:
+        out = call(c.run, signal0, tracer=tr)
+    if out.kind == "step_budget":
+        k.violation("returns", "no_return_within_step_budget", hs)
+        return
+    res = out.value if out.kind == "ok" else None
+    k.ev("result", out.brief() if res is None else
+         [bool(res.success), plain(res.final_output), [(_status(sr), sr.stage_name) for sr in res.stage_results]])
+
+    # ---- fail_closed: an agent expresses only after its gate said true about the very signal the stage processes
+    fate = ["not_reached"] * n
+    why = [""] * n
+    closed = False
+    for j, st in enumerate(plan["ops"]):
+        mine = [(q, e) for q, e in enumerate(log) if e[0] == j]
+        gates = [(q, e) for q, e in mine if e[1] == "gate"]
+        runs = [(q, e) for q, e in mine if e[1] == "express"]
+        if len(gates) > 1 or len(runs) > 1:
+            k.violation("success_def", "callback_ran_twice", hs, f"agent stage {j}: {len(gates)} gate, {len(runs)} express calls")
+        if gates and gates[-1][1][3] != "pass":
+            fate[j], why[j] = "blocked", f"gate={gates[-1][1][3]}"
+        elif runs:
+            fate[j] = "completed"
+        for q, e in runs:
+            if st["gate"] == "absent":
+                continue
+            prior = [g for gq, g in gates if gq < q]
+            if not prior:
+                k.violation("fail_closed", "ran_without_gate_verdict", f"{hs}:gate={st['gate']}:agents",
+                            f"agent {j} expressed {e[2].content!r}; its checkpoint was never asked")
+                closed = True
+                continue
+            g = prior[-1]
+            asked, given = g[2], e[2]
+            if g[3] != "pass":
+                k.violation("fail_closed", "ran_after_" + ("raise" if g[3] == "raise" else "false"),
+                            f"{hs}:gate={g[3]}:agents", f"agent {j}: checkpoint said {g[3]}, the agent expressed anyway")
+                closed = True
+            elif not (asked is given or (not isinstance(asked, Signal) and given.content == str(asked))):
+                k.violation("fail_closed", "ran_on_other_signal", f"{hs}:gate=pass:agents",
+                            f"agent {j}: the checkpoint was asked about {type(asked).__name__} "
+                            f"{getattr(asked, 'content', asked)!r}, not about the signal the stage processed "
+                            f"(expressed {given.content!r})")
+                closed = True
+        # the signal the stage processes is also what the report records as its input
+        if res is not None and st["gate"] != "absent" and gates:
+            srs = [sr for sr in res.stage_results if sr.stage_name == f"a{j}"]
+            if srs and srs[-1].input_signal is not gates[-1][1][2] and not closed:
+                k.violation("fail_closed", "gate_asked_about_another_object", f"{hs}:gate={st['gate']}:agents",
+                            f"agent stage {j}: reported input {type(srs[-1].input_signal).__name__}, checkpoint was handed "
+                            f"{type(gates[-1][1][2]).__name__}")
+                closed = True
+    if any(f == "blocked" for f in fate):
+        k.nontrivial = True
+    # ---- halt
+    if halt:
+        for j in range(n):
+            if fate[j] == "blocked":
+                later = [e for e in log if e[0] > j]
+                if later:
+                    k.violation("halt", "ran_after_blocked", f"cause:{why[j]}",
+                                f"agent stage {j} was blocked ({why[j]}) under halt_on_failure, yet stage {later[0][0]}'s "
+                                f"{later[0][1]} ran")
+                break
+    if res is None or closed:
+        return
+    # ---- success / release
+    if res.success:
+        bad = [j for j in range(n) if fate[j] != "completed"]
+        if bad:
+            k.violation("success_def", "success_with_incomplete_stage", f"{hs}:{why[bad[0]] or fate[bad[0]]}",
+                        f"agent stage {bad[0]} is {fate[bad[0]]} but the run is reported successful")
+        elif [sr.stage_name for sr in res.stage_results] != [f"a{j}" for j in range(n)]:
+            k.violation("success_def", "success_but_stage_results_not_all_completed_in_order", hs,
+                        f"{[(sr.stage_name, _status(sr)) for sr in res.stage_results]}")
+        else:
+            k.probe("success")
+    elif res.final_output is not None:
+        k.violation("no_output", "output_released_without_success", hs, f"final_output={res.final_output!r}")
+    if res.total_amplification > cfg["max_amp"] and any(f == "completed" for f in fate):
+        k.violation("amplification", "reported_gain_exceeds_the_maximum", hs,
+                    f"total_amplification={res.total_amplification!r} max={cfg['max_amp']}")
 
 
 def _run_threads(plan, k):
